@@ -56,6 +56,7 @@ func c20(c *Ctx) {
 	c20scannerErrors(c)
 	c20commentReject(c)
 	c20writtenListDecides(c)
+	c20emptyChildLines(c)
 }
 
 // nodeish: *TokenNode, a type with a Format method from package ast, an interface of package ast, or a slice of those.
